@@ -1,10 +1,9 @@
 /-
-Bridge C20: the definitions regenerated from /repo's CURRENT source (`Pandora/Gen/GrpcGun.lean`, `Gen/GrpcStatus.lean`,
-rewritten on every check run) are what the hand-written model `Model/C20.lean` assumes. If the source changes any of
+Bridge C20: the definitions regenerated from /repo's CURRENT source (`Pandora/Gen/GrpcGun.lean`, rewritten on every
+check run) are what the hand-written model `Model/C20.lean` assumes. If the source changes any of
 these, this file stops compiling and the check reports a broken obligation.
 -/
 import Pandora.Gen.GrpcGun
-import Pandora.Gen.GrpcStatus
 import Pandora.Model.C20
 
 namespace Pandora.Bridge.C20
@@ -109,7 +108,7 @@ theorem methodTable_eq :
   decide
 
 /-- `ConvertGrpcStatus`: OK ↦ 200, InvalidArgument ↦ 400 (the two replies of the example service, `serverCode`) -/
-theorem status_ok : Gen.GrpcStatus.grpcToHttp 0 = 200 := rfl
-theorem status_invalid_argument : Gen.GrpcStatus.grpcToHttp 3 = 400 := rfl
+theorem status_ok : Gen.GrpcGun.statusOk = 200 := rfl
+theorem status_invalid_argument : Gen.GrpcGun.statusInvalidArgument = 400 := rfl
 
 end Pandora.Bridge.C20
